@@ -18,15 +18,15 @@ RULE = ("cases i=0..N-1 from rng(seed, 1, 0, i): 8 edge kinds (odometry r2/r3/se
         "round-robin; operands from hostile classes (translations 1e-3..1e4/1e6, angles at +-pi / shifted by 2*pi*k / huge, "
         "quaternions w<0, w=0, 180deg, identity, near-identity; offsets with rotation); every 10th case is an in-situ optimizer run "
         "whose calc_jacobians calls are observed through a wrapper; every 10th case is an operand history (estimate / vertex pose / offset replaced or modified in place "
-        "between calls on one live edge). distinct = fingerprint of rounded operands; non-trivial = "
+        "between calls on one live edge; a third of the steps are small nudges of 1e-9..1e-3 relative size, a third of the histories far from the origin); every 5th direct case holds the returned Jacobians while two more edges of the same type are linearised (they must not change). distinct = fingerprint of rounded operands; non-trivial = "
         "some operand has a non-identity rotation and a non-zero translation (R^n edges: non-zero translation).")
 PLAN = {
     "quick": {"cases": 6000, "soft_s": 60, "min_nontrivial": 500,
-              "require": ["eval:jac-vs-AD", "eval:jac-vs-FD-of-real-error", "kind:odo-se3", "kind:lm-se3-r3", "kind:lm-se2-r2", "insitu_calls_observed",
+              "require": ["eval:jac-vs-AD", "eval:jac-vs-FD-of-real-error", "eval:returned-jacobians-stay-valid", "kind:odo-se3", "kind:lm-se3-r3", "kind:lm-se2-r2", "insitu_calls_observed",
                           "class:q:wneg", "class:q:wzero", "class:a:nearpi_in", "class:offset_rotated", "class:far_from_origin_close_together", "class:operands_of_pose_subclasses", "history:estimate:replace", "history:estimate:in-place", "history:vertex0:in-place",
                           "history:offset:replace"]},
     "thorough": {"cases": 240000, "soft_s": 1100, "min_nontrivial": 20000,
-                 "require": ["eval:jac-vs-AD", "eval:jac-vs-FD-of-real-error", "kind:odo-se3", "kind:lm-se3-r3", "kind:lm-se2-r2", "insitu_calls_observed",
+                 "require": ["eval:jac-vs-AD", "eval:jac-vs-FD-of-real-error", "eval:returned-jacobians-stay-valid", "kind:odo-se3", "kind:lm-se3-r3", "kind:lm-se2-r2", "insitu_calls_observed",
                              "class:q:wneg", "class:q:wzero", "class:a:nearpi_in", "class:offset_rotated"]},
 }
 ASSUMPTIONS = ["SE(3) operands are unit quaternions (|norm-1| <= 64 eps); SE(2) cases whose angular error is within 1e-9 of +-pi are excluded as the property states"]
@@ -55,6 +55,13 @@ def make_edge(rng, typ, k, maxexp, labels):
             p1 = [sh + float(d) for sh, d in zip(shift, near1)] + p1[nt0:]
             p2 = [sh + float(d) for sh, d in zip(shift, near2)] + p2[nt0:]
             labels.add("far_from_origin_close_together")
+        if rng.random() < 0.15:
+            # operands that coincide in part (equal values, distinct objects): same orientation / same position / one shared coordinate / all equal
+            p2, how = gen.coincide(rng, k, p1, p2)
+            labels.add("operands_coincide:" + how)
+            if rng.random() < 0.3:
+                z, how = gen.coincide(rng, k, p1 if rng.random() < 0.5 else p2, z)
+                labels.add("operands_coincide:measurement:" + how)
         info, li = gen.info(rng, R.CD[k], 1e3)
         spec = {"type": "odo", "ids": [1, 2], "info": info.tolist(), "est": z, "est_kind": k}
         vs = [M.Vertex(1, M.mkpose(k, p1)), M.Vertex(2, M.mkpose(k, p2))]
@@ -72,6 +79,20 @@ def make_edge(rng, typ, k, maxexp, labels):
             if k == "se3" and min(off[3:6]) < 0:
                 labels.add("offset_quat_negative_component")
         labels |= l1 | l2 | l3 | {"off:" + x for x in l4}
+        if rng.random() < 0.15:
+            ntp = 2 if kp == "r2" else 3
+            how = str(rng.choice(["landmark_at_the_pose_position", "landmark_shares_a_coordinate", "measurement_equals_landmark", "offset_translation_equals_pose_translation"]))
+            if how == "landmark_at_the_pose_position":
+                l = list(p1[:ntp])
+            elif how == "landmark_shares_a_coordinate":
+                j = int(rng.integers(ntp))
+                l = list(l)
+                l[j] = p1[j]
+            elif how == "measurement_equals_landmark":
+                z = list(l)
+            else:
+                off = list(p1[:ntp]) + list(off[ntp:])
+            labels.add("operands_coincide:" + how)
         info, li = gen.info(rng, R.CD[kp], 1e3)
         spec = {"type": "lm", "ids": [1, 2], "info": info.tolist(), "est": z, "est_kind": kp, "off": off, "off_kind": k, "off_id": 0}
         vs = [M.Vertex(1, M.mkpose(k, p1)), M.Vertex(2, M.mkpose(kp, l))]
@@ -115,6 +136,22 @@ def direct_case(ctx, i, rng):
     res = O.check_edge_jacobians(ctx, e, "direct", fd=True, case=case, rng=rng)
     if res is None:
         return
+    if i % 5 == 0:
+        # a client that collects the Jacobians of several edges before using them (its own solver, a covariance estimate): what one call returned
+        # must still be the derivative after other edges of the same type have been linearised
+        with np.errstate(all="ignore"):
+            held = e.calc_jacobians()
+            saved = [np.array(J, dtype=float, copy=True) for J in held]
+            for _ in range(2):
+                e2, _spec2 = make_edge(rng, typ, k, maxexp, set())
+                try:
+                    e2.calc_error()
+                    e2.calc_jacobians()
+                    e2.calc_chi2_gradient_hessian()
+                except Exception:  # noqa: BLE001 - hostile operands of the second edge are not judged here
+                    pass
+        same = len(held) == len(saved) and all(np.array_equal(np.asarray(a), b, equal_nan=True) for a, b in zip(held, saved))
+        ctx.check("returned-jacobians-stay-valid", same, {"kind": kname}, {"note": "arrays returned by calc_jacobians changed after other edges were linearised"}, case)
     for lab in labels:
         ctx.count("class:" + lab)
     if nontrivial(e):
@@ -163,9 +200,19 @@ def mutate_operand(rng, e, maxexp=3.0):
     how = str(rng.choice(["replace", "in-place"]))
     obj = e.estimate if tgt == "estimate" else e.offset if tgt == "offset" else e.vertices[int(tgt[-1])].pose
     k = M.kind(obj)
-    new, _ = gen.pose(rng, k, maxexp)
+    if rng.random() < 0.35:
+        # a *small* change relative to the operand's size (what an optimizer iteration or a calibration tweak does): 1e-9..1e-3 relative in translation,
+        # 1e-9..1e-2 rad in rotation - anything that decides "unchanged" with a tolerance is wrong here
+        old = M.fl(obj)
+        nt = {"r2": 2, "r3": 3, "se2": 2, "se3": 3}[k]
+        mt = float(10 ** rng.uniform(-9, -3)) * max(1.0, R.tmag(k, old))
+        mr = float(10 ** rng.uniform(-9, -2))
+        new = gen.perturb(rng, k, old, mt, mr)
+        how += ":nudge"
+    else:
+        new, _ = gen.pose(rng, k, maxexp)
     new = M.fl(M.mkpose(k, new))
-    if how == "replace":
+    if how.startswith("replace"):
         val = M.mkpose(k, new) if k != "se2" else M.raw_se2(new)
         if tgt == "estimate":
             e.estimate = val
@@ -185,7 +232,7 @@ def history_case(ctx, i, rng):
     (a result memoised on part of the operands goes stale here)."""
     typ, k = EDGE_KINDS[(i // 10) % len(EDGE_KINDS)]
     labels = set()
-    e, spec = make_edge(rng, typ, k, 3.0, labels)
+    e, spec = make_edge(rng, typ, k, 3.0 if rng.random() < 0.7 else 6.0, labels)  # a third of the histories far from the origin (UTM-like coordinates)
     hist = []
     for step in range(int(rng.integers(3, 7))):
         with np.errstate(all="ignore"):
